@@ -1094,30 +1094,24 @@ def judge_c16(ops, impl):
 MUTATING = ('handle', 'remove', 'clean', 'use', 'router', 'fhandle', 'fremove', 'fclean', 'facade')
 
 def judge_c17(ops, impl):
-    """a rejected Handle changes nothing: the probe block after it equals the probe block before it"""
+    """a rejected Handle changes nothing: every probe (Routes(), serve) repeated after it gets the answer it got before it"""
     bad = []
-    blocks = {}   # rid -> {op line: obs} of the last block
-    cur = {}
-    state = {}
+    answers = {}     # rid -> {probe line: observation} since the last accepted mutation (latest answer per probe)
+    frozen = {}      # rid -> (index of the rejected Handle, answers before it)
+    flagged = set()
     for i, toks, obs, w in walk(ops, impl):
         if toks[0] == 'router':
-            blocks[int(toks[1])] = {}; cur[int(toks[1])] = {}
+            answers[int(toks[1])] = {}; frozen.pop(int(toks[1]), None)
             continue
         if toks[0] in ('handle', 'remove', 'clean', 'use'):
             rid = int(toks[1])
-            if rid not in blocks:
+            if rid not in answers:
                 continue
-            prev = blocks[rid] if not state.get(rid) else state[rid]['prev']
-            # close the running block
-            if state.get(rid) and state[rid]['rejected'] is not None:
-                for l, o in cur[rid].items():
-                    if l in state[rid]['prev'] and state[rid]['prev'][l] != o:
-                        bad.append((state[rid]['rejected'], 'rejected Handle changed the answer to %r: %s -> %s' % (l, state[rid]['prev'][l][:80], o[:80])))
-                        break
-            newprev = cur[rid] if cur[rid] else (state[rid]['prev'] if state.get(rid) else {})
-            rejected = i if (toks[0] == 'handle' and obs.startswith('reject:')) else None
-            state[rid] = dict(prev=newprev, rejected=rejected)
-            cur[rid] = {}
+            if toks[0] == 'handle' and obs.startswith('reject:'):
+                if rid not in frozen:
+                    frozen[rid] = (i, dict(answers[rid]))
+            else:
+                answers[rid] = {}; frozen.pop(rid, None)
             if toks[0] == 'handle':
                 r = w.routers.get(rid)
                 pattern = decB(toks[2]); ms = [m.decode('latin-1') for m in decL(toks[5])] or ANY
@@ -1134,8 +1128,14 @@ def judge_c17(ops, impl):
                             not any(erase_names(p, r.ic) == erase_names(pattern, r.ic) for p in r.table):
                         bad.append((i, 'rejected as ambiguous although no live route is identical up to parameter names: %r vs %r' % (pattern, sorted(r.table)[:4])))
             continue
-        if toks[0] in ('serve', 'routes') and int(toks[1]) in cur:
-            cur[int(toks[1])][' '.join(toks)] = obs
+        if toks[0] in ('serve', 'routes') and int(toks[1]) in answers:
+            rid = int(toks[1]); key = ' '.join(toks)
+            if rid in frozen:
+                j, before = frozen[rid]
+                if key in before and before[key] != obs and j not in flagged:
+                    flagged.add(j)
+                    bad.append((i, 'the Handle rejected at line %d changed the answer to %r: %s -> %s' % (j, key[:80], before[key][:90], obs[:90])))
+            answers[rid][key] = obs
     return bad
 
 def judge_c18(ops, impl):
